@@ -317,6 +317,12 @@ func (ex *Exec) applyContract(v ssa.Value, fc *FuncContract, cname string, names
 			vars[n] = args[i]
 		}
 	}
+	// data-structure invariants hold for every argument in the state the callee is entered in
+	for _, a := range args {
+		if a.Ty != nil {
+			ex.assumeTypeInv(a.T, a.Ty)
+		}
+	}
 	envPre := &SpecEnv{vc: vc, vars: vars, heap: pre, old: pre}
 	sn := ""
 	if ex.pass == 2 {
